@@ -1,0 +1,97 @@
+//! Verification hooks (feature `verif-hooks`, off by default).
+//!
+//! Thin, logic-free wrappers that let out-of-tree model-checking harnesses
+//! call a few private leaf functions of this crate on plain data. Nothing in
+//! here is used by the crate itself.
+
+use std::collections::BTreeMap;
+
+use schemars::schema::{
+    ArrayValidation, InstanceType, Metadata, NumberValidation, SingleOrVec, StringValidation,
+};
+
+use crate::{MapType, Name, TypeSpace, TypeSpaceSettings, UnknownPolicy};
+
+/// A [`TypeSpace`] with default contents, built without parsing anything
+/// (the default `MapType` goes through `syn::parse_str`).
+pub fn empty_type_space() -> TypeSpace {
+    TypeSpace {
+        next_id: 1,
+        definitions: Default::default(),
+        id_to_entry: Default::default(),
+        type_to_id: Default::default(),
+        name_to_id: Default::default(),
+        ref_to_id: Default::default(),
+        uses_chrono: false,
+        uses_uuid: false,
+        uses_serde_json: false,
+        uses_regress: false,
+        settings: TypeSpaceSettings {
+            type_mod: None,
+            extra_derives: Vec::new(),
+            struct_builder: false,
+            unknown_crates: UnknownPolicy::Generate,
+            crates: Default::default(),
+            map_type: MapType(syn::Type::Verbatim(proc_macro2::TokenStream::new())),
+            patch: Default::default(),
+            replace: Default::default(),
+            convert: Vec::new(),
+        },
+        cache: Default::default(),
+        defaults: Default::default(),
+    }
+}
+
+/// `TypeSpace::convert_integer`: name of the selected Rust integer type, or
+/// `Err(())` if the conversion is rejected.
+pub fn convert_integer(
+    type_space: &TypeSpace,
+    metadata: &Option<Box<Metadata>>,
+    validation: &Option<Box<NumberValidation>>,
+    format: &Option<String>,
+) -> Result<String, ()> {
+    type_space
+        .verif_convert_integer(metadata, validation, format)
+        .map_err(|_| ())
+}
+
+/// `TypeSpace::convert_number`: name of the selected Rust float type.
+pub fn convert_number(
+    type_space: &TypeSpace,
+    metadata: &Option<Box<Metadata>>,
+    validation: &Option<Box<NumberValidation>>,
+    format: &Option<String>,
+) -> Result<String, ()> {
+    type_space
+        .verif_convert_number(metadata, validation, format)
+        .map_err(|_| ())
+}
+
+/// `util::StringValidator::new(..)?.is_valid(s)`; `None` if construction
+/// fails.
+pub fn string_validator_is_valid(validation: Option<&StringValidation>, s: &str) -> Option<bool> {
+    crate::util::StringValidator::new(&Name::Unknown, validation)
+        .ok()
+        .map(|v| v.is_valid(s))
+}
+
+/// `merge::merge_so_instance_type`
+pub fn merge_instance_type(
+    a: Option<&SingleOrVec<InstanceType>>,
+    b: Option<&SingleOrVec<InstanceType>>,
+) -> Result<Option<SingleOrVec<InstanceType>>, ()> {
+    crate::merge::verif::instance_type(a, b)
+}
+
+/// `merge::merge_so_format`
+pub fn merge_format(a: Option<&String>, b: Option<&String>) -> Result<Option<String>, ()> {
+    crate::merge::verif::format(a, b)
+}
+
+/// `merge::merge_so_array` with an empty definitions map.
+pub fn merge_array(
+    a: Option<&ArrayValidation>,
+    b: Option<&ArrayValidation>,
+) -> Result<Option<Box<ArrayValidation>>, ()> {
+    crate::merge::verif::array(a, b, &BTreeMap::new())
+}
